@@ -26,7 +26,7 @@ import (
 func init() {
 	Registry["C06"] = &Check{
 		Scenarios: c06Scenarios,
-		Rule: "retained groups of 15 / 16 / 17 / 32 members; every other later message carries its bytes inside a Grouped AVP of three members (a decode that builds member lists of its own); a retained message followed by a second message (the same wire image, or one with member-less groups) that is then edited in every ordinary way (a member added to each of its groups at every depth, a top-level AVP added, header changed): the retained one must not change; retained AVPs of an application-defined data type whose name is registered without a decoder (kept, if at all, as a copy); a message read while a 1.1 / 4 / 70 KB message is in flight on another connection (suspended at its header/body border, 8 and 600 bytes into the body), then retained across later reads; retained groups nested 40 / 64 / 65 / 100 deep; histories: a retained first message M1 (one per slice-backed representation: Address IPv4 / IPv6 / other family, undefined AVP, IPv4, IPv6, OctetString, UTF8String, a grouped AVP containing each, nested groups; and one AVP of every declared type carrying payloads of 15 unexpected lengths / shapes, i.e. the lenient decode paths) followed by every sequence of <=3 further reads drawn from {same size with other content, larger but pooled, larger than the 1 KiB pooled buffer} x {same reader, another reader}; the pool shim reuses buffers deterministically (LIFO), so nothing depends on sync.Pool's luck; the same with the exported tuning variable diam.MessageBufferLength raised to 4096 and retained payloads of 1000..3000 bytes. schedules: two connections served by the real reader loops, a handler that retains the first message of connection A, a concurrent writer; Pool.Get is an explored choice (any pooled buffer, or a fresh one); every schedule up to preemption bound 2 (thorough: 4 on all fifteen retained shapes). Oracle: Serialize() bytes and String() of M1 taken when the reader returned it equal those taken at quiescence. Plus: M1 is unmarshalled into a struct and two later messages of the same shape are unmarshalled into the SAME struct value (field shapes *diam.AVP, diam.AVP, []*diam.AVP, the datatype, a pointer to it; 8 data types).",
+		Rule: "retained groups of 15 / 16 / 17 / 32 members; every other later message carries its bytes inside a Grouped AVP of three members (a decode that builds member lists of its own); a retained message followed by a second message (the same wire image, or one with member-less groups) that is then edited in every ordinary way (a member added to each of its groups at every depth, a top-level AVP added, header changed): the retained one must not change; retained AVPs of an application-defined data type whose name is registered without a decoder (kept, if at all, as a copy); a message read while a 1.1 / 4 / 70 KB message is in flight on another connection (suspended at its header/body border, 8 and 600 bytes into the body), then retained across later reads; retained groups nested 40 / 64 / 65 / 100 deep; histories: a retained first message M1 (one per slice-backed representation: Address IPv4 / IPv6 / other family, undefined AVP, IPv4, IPv6, OctetString, UTF8String, a grouped AVP containing each, nested groups; and one AVP of every declared type carrying payloads of 15 unexpected lengths / shapes, i.e. the lenient decode paths) followed by every sequence of <=3 further reads drawn from {same size with other content, larger but pooled, larger than the 1 KiB pooled buffer} x {same reader, another reader}, and by later messages of the retained message's own shape (same codes, lengths and nesting, every leaf octet different) on either reader; the pool shim reuses buffers deterministically (LIFO), so nothing depends on sync.Pool's luck; the same with the exported tuning variable diam.MessageBufferLength raised to 4096 and retained payloads of 1000..3000 bytes. schedules: two connections served by the real reader loops, a handler that retains the first message of connection A, a concurrent writer; Pool.Get is an explored choice (any pooled buffer, or a fresh one); every schedule up to preemption bound 2 (thorough: 4 on all fifteen retained shapes). Oracle: Serialize() bytes and String() of M1 taken when the reader returned it equal those taken at quiescence. Plus: M1 is unmarshalled into a struct and two later messages of the same shape are unmarshalled into the SAME struct value (field shapes *diam.AVP, diam.AVP, []*diam.AVP, the datatype, a pointer to it; 8 data types).",
 		Assume: []string{"data-race freedom between visible operations (audited separately with -race)", "sync.Pool is modelled as: Get returns any previously Put object or allocates"},
 		QuickBudget: 100, ThoroughBudget: 2400,
 	}
@@ -269,6 +269,41 @@ func min(a, b int) int {
 	return b
 }
 
+// c06SameShape returns the wire image w with other identifiers and every octet of every leaf
+// payload changed (codes, flags, lengths and nesting as in w).
+func c06SameShape(w []byte, seq int) []byte {
+	o := append([]byte{}, w...)
+	o[19] ^= byte(seq + 1)
+	isGroup := map[uint32]bool{}
+	for _, g := range c06Alpha.Groups {
+		isGroup[g.Code] = true
+	}
+	var walk func(lo, hi int)
+	walk = func(lo, hi int) {
+		for off := lo; off+8 <= hi; {
+			code := uint32(o[off])<<24 | uint32(o[off+1])<<16 | uint32(o[off+2])<<8 | uint32(o[off+3])
+			l := int(o[off+5])<<16 | int(o[off+6])<<8 | int(o[off+7])
+			hl := 8
+			if o[off+4]&0x80 != 0 {
+				hl = 12
+			}
+			if l < hl || off+l > hi {
+				return
+			}
+			if isGroup[code] && o[off+4]&0x80 == 0 {
+				walk(off+hl, off+l)
+			} else {
+				for i := off + hl; i < off+l; i++ {
+					o[i] ^= 0x5A + byte(seq)
+				}
+			}
+			off += (l + 3) &^ 3
+		}
+	}
+	walk(20, len(o))
+	return o
+}
+
 // c06Follow builds a follow-up message: kind 0 same size as ref, 1 larger pooled, 2 unpooled.
 func c06Follow(refLen, kind, seq int) []byte {
 	body := refLen - 20
@@ -401,7 +436,10 @@ func c06Histories(r *SeqResult, thorough bool) {
 	names = append(names, oddNames...)
 	wires = append(wires, oddWires...)
 	parsers := append(make([]*dict.Parser, nReg), oddParsers...)
-	shortSeqs := [][]step{{{0, 0}}, {{0, 1}}, {{1, 0}}, {{0, 0}, {0, 1}}}
+	shortSeqs := [][]step{{{0, 0}}, {{0, 1}}, {{1, 0}}, {{0, 0}, {0, 1}}, {{3, 0}}, {{3, 1}}, {{3, 1}, {3, 0}}}
+	// kind 3: a later message of the SAME shape as the retained one (same codes, same lengths) whose
+	// leaf payloads differ in every octet - state a type's decoder keeps between calls shows here
+	seqs = append(append([][]step{}, seqs...), []step{{3, 0}}, []step{{3, 1}}, []step{{3, 1}, {3, 0}}, []step{{0, 0}, {3, 1}})
 	for i, name := range names {
 		w := wires[i]
 		use := seqs
@@ -416,7 +454,11 @@ func c06Histories(r *SeqResult, thorough bool) {
 				var streams [2][]byte
 				streams[0] = append(streams[0], w...)
 				for j, st := range sq {
-					streams[st.reader] = append(streams[st.reader], c06Follow(len(w), st.kind, j)...)
+					if st.kind == 3 && parsers[i] == nil {
+						streams[st.reader] = append(streams[st.reader], c06SameShape(w, j)...)
+						continue
+					}
+					streams[st.reader] = append(streams[st.reader], c06Follow(len(w), st.kind%3, j)...)
 				}
 				rd := [2]*bytes.Reader{bytes.NewReader(streams[0]), bytes.NewReader(streams[1])}
 				p1 := c06Dict.P
@@ -442,7 +484,9 @@ func c06Histories(r *SeqResult, thorough bool) {
 					return
 				}
 				for j, st := range sq {
-					if _, err := diam.ReadMessage(rd[st.reader], c06Dict.P); err != nil {
+					if _, err := diam.ReadMessage(rd[st.reader], c06Dict.P); err != nil && !(st.kind == 3 && parsers[i] == nil) {
+						// (a same-shape follow-up carries arbitrary octets under typed codes: its decoder may
+						// refuse them - the retained message must not change either way)
 						viol = fmt.Sprintf("follow-up read %d failed: %v", j, err)
 						return
 					}
